@@ -160,8 +160,21 @@ def tmpMem (W : Nat) (bytes : List Nat) (junk : Nat → Nat) : Mem :=
               | none => some (junk i))
            else none
 
-/-- `Quote(src, nb, dst)` with `dst` = index 0 of `d`.  `san = true`: `SONIC_USE_SANITIZE` build.
-Result: destination and the returned pointer (as an index). -/
+/-- the `if (nb > 0) { … }` part of `Quote` after the main loop: choice of `src_r`, then the tail loop.
+`san = true` is the `SONIC_USE_SANITIZE` build (`if (0)`: always copy). -/
+def tailPart (W : Nat) (san : Bool) (m : Mem) (junk : Nat → Nat) (d : Dst) (src dst nb : Nat) :
+    Except Fault (Dst × Nat) :=
+  if 0 < nb then
+    if !san && src % pageSize ≤ pageSize - 2 * W then
+      tailLoop W m (nb + 1) d src dst nb        -- src_r = src
+    else
+      match loadVec m src nb with               -- memcpy(tmp_src, src, nb)  (nb < W ≤ 2W)
+      | .error e => .error e
+      | .ok bytes => tailLoop W (tmpMem W bytes junk) (nb + 1) d 0 dst nb   -- src_r = tmp_src
+  else .ok (d, dst)
+
+/-- `Quote(src, nb, dst)` with `dst` = index 0 of `d`.  Result: destination and the returned pointer
+(as an index). -/
 def quote (W : Nat) (san : Bool) (m : Mem) (junk : Nat → Nat) (src nb : Nat) (d : Dst) :
     Except Fault (Dst × Nat) :=
   match store d 0 [34] with                     -- *dst++ = '"'
@@ -170,16 +183,7 @@ def quote (W : Nat) (san : Bool) (m : Mem) (junk : Nat → Nat) (src nb : Nat) (
     match mainLoop W m (nb + 1) d src 1 nb with
     | .error e => .error e
     | .ok (d, src, dst, nb) =>
-      let tail : Except Fault (Dst × Nat) :=
-        if 0 < nb then
-          if !san && src % pageSize ≤ pageSize - 2 * W then
-            tailLoop W m (nb + 1) d src dst nb  -- src_r = src
-          else
-            match loadVec m src nb with         -- memcpy(tmp_src, src, nb)  (nb < W ≤ 2W)
-            | .error e => .error e
-            | .ok bytes => tailLoop W (tmpMem W bytes junk) (nb + 1) d 0 dst nb   -- src_r = tmp_src
-        else .ok (d, dst)
-      match tail with
+      match tailPart W san m junk d src dst nb with
       | .error e => .error e
       | .ok (d, dst) =>
         match store d dst [34] with             -- *dst++ = '"'
